@@ -1,7 +1,7 @@
 ------------------------------ MODULE FitTrace ------------------------------
 (* Trace specification for properties C07 (linear fits = closed-form GLS) and C08 (non-linear and total least squares    *)
 (* obey the implicit-function rule).                                                                                      *)
-EXTENDS Fit, DeriveCheck
+EXTENDS Fit, DeriveCheck, ValErr
 VARIABLE l
 
 \* tolerance of the stopping rule of each minimiser, in units of chi^2 (Newton decrement / excess over the minimum)
@@ -19,7 +19,9 @@ CheckFit(c) ==
       p == TLCEval([a \in 1..n |-> c.res.p[a].value])
       y == TLCEval([i \in 1..m |-> c.y[i].value])
       W == WeightMatrix(c.W, m)
-      pri == c.priors
+      \* a prior handed in as text 'value(error)' carries the value and error its characters state (read by ValErr)
+      pri == TLCEval([k \in DOMAIN c.priors |-> IF c.priors[k].s = "" THEN c.priors[k]
+                                                   ELSE [c.priors[k] EXCEPT !.v = ParsedV(c.priors[k].s), !.dv = ParsedE(c.priors[k].s)]])
       g == TLCEval(GradChi(c.exprs, c.points, p, y, W, pri, n))
       H == TLCEval(HessChi(c.exprs, c.points, p, y, W, pri, n))
       dec == TLCEval(NewtonDecrement(g, H))
